@@ -785,10 +785,9 @@ def parse_kv(ans):
 class C03(PropBase):
     pid = "C03"
     coq_dirs = ["Base", "C08", "C03"]      # C05 / C11 / Gen are imported (other owners): their own gates scan them
-    translators = []
-    translators = []
+    translators = ["c03_sites.py"]
     bins = ["c03"]
-    impl_timeout = 600
+    impl_timeout = 1500
     impl_mem_gb = 4
     rule = ("D cases: a dump synthesized from a structured spec (11 CPU kinds x 11 platform ids; threads with pointer-laced, empty, "
             "overlapping or top-of-address-space stacks; hostile module / unloaded-module lists; exception records incl. missing "
@@ -796,7 +795,12 @@ class C03(PropBase):
             "streams with malformed lines; optional byte corruption) x grammar-generated and corrupted symbol files (FUNC/line/INLINE/"
             "PUBLIC/STACK CFI/STACK WIN with looping, non-progressing, overflowing rules) x option sets; F cases: byte-corrupted / "
             "truncated sample dumps from /repo/testdata with generated symbols; each runs process_minidump_with_options and the "
-            "three printers under catch_unwind with a counting allocator. L/G/S/J cases drive the four site models. Non-trivial = "
+            "three printers under catch_unwind with a counting allocator, a CPU-time budget of 10 s + 0.5 ms per input byte enforced by a "
+            "watchdog inside the harness, and a counter of symbol-provider calls. Themes added in round 4: `inline` (FUNCs covering every frame with "
+            "INLINE records of hostile nesting levels up to 4294967295, gaps, many records, with/without INLINE_ORIGIN / FILE) and `straddle` "
+            "(exception instruction pointer in the last 1..15 bytes of a memory region, with/without a directly following / overlapping / "
+            "one-byte-apart region of 0..20 bytes, MemoryList or Memory64List, instruction encodings of every length). L/G/S/J/A/I cases drive "
+            "the site models (I = instruction-bytes fetch). Non-trivial = "
             "processing returned Ok with at least one thread, or a site answer; distinct = distinct case lines")
     trusted_base = [
         "Coq 8.16.1 kernel (vm_compute only in refutation witnesses and Examples)",
@@ -811,7 +815,11 @@ class C03(PropBase):
         "c03_render_total takes the C11 facts (function_base <= instruction, source_line_base <= instruction) as hypotheses; the module and "
         "unloaded-module facts are derived from C08 inside C03",
         "yaxpeax-x86 (operand kinds reaching the panic! arms of op_analysis), serde_json, tokio, tracing, the error-code tables and arg_recovery are exercised only",
-        "time / memory budget is judged by the search harness: peak heap <= 64 MiB + 20000 x input bytes (a frame costs up to ~15 KB incl. its JSON tree, and frames <= stack bytes + 2), 40 s per processing call",
+        "time / memory budget is judged by the search harness: peak heap <= 64 MiB + 20000 x input bytes (a frame costs up to ~15 KB incl. its JSON tree, and frames <= stack bytes + 2); "
+        "CPU time of the processing thread <= 10 s + 0.5 ms per input byte (measured maximum on the unchanged tree: 0.17 ms per byte, 4.8 s; rendering is frames x name length, so the constant is generous), "
+        "enforced while the case runs by a watchdog thread of the harness; symbol-provider calls <= 200 per produced frame",
+        "c03_inline_levels_bound takes get_inlinee_at_depth's contract (a record of the function with the depth asked for) as the hypothesis look_sound; the binary search itself is C11's model. "
+        "c03_instr_fetch_total takes size = length of the byte slice for every region, which both stream readers establish (location_slice / all.get(start..end))",
     ]
     manifest = {
         "text": "partial: theorems (Coq, all inputs, debug and release arithmetic) that Panic is unreachable in the models of the anchored sites outside the "
@@ -819,11 +827,14 @@ class C03(PropBase):
                 "end addresses given the readers' size filter, the printers' instruction - module/function/source-line base subtractions given the "
                 "C08/C11 lookup facts (module and unloaded-module parts derived from C08 here), threads[requesting_thread], x86 argument recovery (splitting a function name of arbitrary Unicode text never slices inside a "
                 "character; read-head arithmetic); c03_render_total_discharged removes the frame hypotheses via C08 and the imported C11 theorems; "
-                "c03_process_total_partial states all stages together with C05's imported frame bound; refutations with "
+                "c03_process_total_partial states all stages together with C05's imported frame bound; round 4: the crashing-instruction fetch "
+                "(region lookup through the C08 table, ip - base, &bytes[offset..]) returns at least one byte and never slices out of range for any region layout "
+                "(c03_instr_fetch_total, c03_memory_at_sound), fill_symbol's inline-level enumeration performs at most |INLINE records| + 1 lookups whatever depths the records carry "
+                "(c03_inline_levels_bound), and the two seeded variants of these sites are refuted in the model (c03_instr_fetch_stitch_refuted, c03_inline_maxdepth_refuted); refutations with "
                 "witnesses for the three defects fixed in /repo (F-C03b, F-C03c, F-C03g). The models are compared with whole-dump processing on "
                 "generated site cases. Everything else (unwinder loop, symbol walkers, disassembler, JSON writer, scheduling) is covered by search only: "
                 "structured hostile dumps x generated/corrupted symbols x three option sets through process_minidump_with_options and print / "
-                "print_brief / print_json under catch_unwind, with per-case frame-count, peak-heap and time checks in both build profiles.",
+                "print_brief / print_json under catch_unwind, with per-case frame-count, peak-heap, CPU-time (tied to the input size) and provider-call checks in both build profiles.",
         "note": "Trusted: Coq kernel; hand-written site models (correspondence-checked); extraction + glue. The whole-pipeline claim (terminates, never panics, "
                 "always renders, frames <= stack bytes + 2) is NOT proved as a whole: frame bound and unwinder guards are C05's theorems, the rest is search.",
     }
@@ -861,6 +872,11 @@ class C03(PropBase):
             order[i], order[j] = order[j], order[i]
         return [cases[i] for i in order], g.dist, False
 
+    def impl_cmd(self, exe, profile):
+        # the per-case wall-clock watchdog of vharness is only the backstop for a case that waits without computing:
+        # loops are ended by the CPU-time budget inside harness/src/bin/c03.rs, which does not depend on machine load
+        return ["env", "VHARNESS_CASE_TIMEOUT=300", exe]
+
     def canon_model(self, case, ans):
         return None if ans == "?" else ans
 
@@ -881,14 +897,18 @@ class C03(PropBase):
             return "unparseable answer " + ans[:100]
         d = parse_kv(ans)
         if d.get("r") == "timeout":
-            return "processing did not finish within 40 s"
+            return "processing did not finish within 200 s (wall clock)"
         if d.get("fb") != "1":
             return "a thread was walked for %s frames with only %s stack bytes (bound: bytes + 2)" % tuple(d.get("fr", "?/?").split("/"))
+        # CPUs without an unwinder (get_caller_frame's `_ => None` arm): the context frame and nothing else
+        if kind == "D" and " mut=" not in case and case.split()[1] in ("cpu=ppc", "cpu=ppc64", "cpu=sparc", "cpu=unknown"):
+            if int(d.get("fr", "0/0").split("/")[0]) > 1:
+                return "a thread of a %s dump has %s frames although that CPU has no unwinder" % (case.split()[1][4:], d.get("fr"))
         peak, insz, ms = int(d.get("peak", 0)), int(d.get("in", 0)), int(d.get("ms", 0))
         if peak > (64 << 20) + 20000 * insz:
             return "peak heap %d bytes for %d input bytes exceeds the budget 64 MiB + 20000 x input" % (peak, insz)
-        if ms > 60000:
-            return "case took %d ms" % ms
+        if ms > 400000:
+            return "case took %d ms (wall clock)" % ms
         # time tied to the input size, measured as CPU time of the processing thread (independent of machine load);
         # the harness's CPU watchdog ends a case that exceeds the same budget while it is still running
         cpu = int(d.get("cpu", 0))
